@@ -43,8 +43,11 @@ func gaussJordan(a, x Matrix, b Vector, submatrix []bool) error {
   n, _ := a.Dims()
   // permutation of the rows
   p := make([]int, n)
+  // sequence of row interchanges that generates p
+  q := make([]int, n)
   for i := 0; i < n; i++ {
     p[i] = i
+    q[i] = i
   }
   // x and b should have the same number of rows
   if m, _ := x.Dims(); m != n {
@@ -70,6 +73,7 @@ func gaussJordan(a, x Matrix, b Vector, submatrix []bool) error {
     }
     // swap rows
     p[i], p[maxrow] = p[maxrow], p[i]
+    q[i] = maxrow
     // eliminate column i
     for j := i+1; j < n; j++ {
       if !submatrix[j] {
@@ -158,13 +162,15 @@ func gaussJordan(a, x Matrix, b Vector, submatrix []bool) error {
     // normalize ith element in b
     b.At(p[i]).Div(b.At(p[i]), c)
   }
-  if err := a.PermuteRows(p); err != nil {
+  // PermuteRows/Permute apply their argument as a sequence of
+  // interchanges (swap i and q[i]), not as a permutation vector
+  if err := a.PermuteRows(q); err != nil {
     return err
   }
-  if err := x.PermuteRows(p); err != nil {
+  if err := x.PermuteRows(q); err != nil {
     return err
   }
-  if err := b.Permute(p); err != nil {
+  if err := b.Permute(q); err != nil {
     return err
   }
   return nil
